@@ -857,6 +857,14 @@ pub fn run(ctx: &Ctx) -> (Vec<Case>, String, bool, BTreeMap<String, String>) {
     all.extend(crate::runner::par_cases(ctx, "C10", "legacy-generation", 4, |i, id| session(ctx, i, id, Kind::LegacyGeneration)));
     // probe: every region size 0..=0x300 (both tiers), every header variant
     all.extend(crate::runner::par_cases(ctx, "C10", "probe", 0x301, |i, id| probe_case(i, id)));
+    // configuration accesses of every type at every offset around the end of the configuration space,
+    // for every length of it (C13's stream): only the device's own region is touched, refusals are errors
+    let mut b = crate::c13_config::bounds_cases_mmio(ctx, "C10");
+    for c in b.iter_mut() {
+        c.id = format!("C10-via-{}", c.id);
+        c.tag("config-bounds");
+    }
+    all.extend(b);
     let rule = format!(
         "sessions: probe a valid header (version 1 or 2, directly or through SomeTransport), then 8..{} random Transport operations with boundary-biased queue indices / sizes / 64-bit addresses / feature words / status values and scripted device read answers (incl. devices that keep QueueReady set for k reads or forever), then drop; 'init' sessions start with begin_init (+ a legacy queue_set); every operation's complete ordered MMIO trace and result is compared with the model; non-trivial = the session performed at least one register write before drop. probe: every region size 0..=0x300 x {} header variants (device ids 0..30 and outliers, versions, mutated magic values); non-trivial = at least one header accepted",
         ctx.tier.pick(32, 64),
